@@ -9,7 +9,7 @@ package ctfe
 // exists). Nothing else assigns them (checked: frame:global-invariant).
 //@ global-invariant alignGetEntries != nil && getEntriesMetrics != nil
 //@ global-invariant ErrNoRFCCompliantPathFound != nil
-//@ global-invariant alignedGetEntries != nil && getEntriesStartPercentiles != nil && reqsCounter != nil && rspsCounter != nil && rspLatency != nil && lastSCTTimestamp != nil && lastSTHTimestamp != nil && lastSTHTreeSize != nil && knownLogs != nil
+//@ global-invariant alignedGetEntries != nil && getEntriesStartPercentiles != nil && reqsCounter != nil && rspsCounter != nil && rspLatency != nil && lastSCTTimestamp != nil && lastSTHTimestamp != nil && lastSTHTreeSize != nil && knownLogs != nil && isMirrorLog != nil && maxMergeDelay != nil && expMergeDelay != nil && frozenSTHTimestamp != nil
 
 //@ func parseGetEntriesRange
 //@ props C07 C08
@@ -852,3 +852,72 @@ package ctfe
 //@ ensures [success-returns-the-backend-map] result1 == nil ==> bm.res1 == nil && vc.called && vc.res == nil && result0 == bm.res0
 //@ at bm assert [backends-of-the-config] bm.lbs == cfg.Backends
 //@ at vc assert [logs-of-the-config] cfg.LogConfigs != nil ==> vc.cfg == cfg.LogConfigs.Config
+
+// ---- C15: the instance matches its configuration ----------------------------------------------
+
+//@ func (*logInfo).Handlers
+//@ props C15 C08
+//@ modifies nothing
+//@ site strings.TrimRight#1 as tp
+//@ requires li != nil && li.instanceOpts.Validated != nil && li.instanceOpts.Validated.Config != nil
+//@ let ro = li.instanceOpts.Validated.Config.IsReadonly || li.instanceOpts.Validated.Config.IsMirror
+//@ ensures [submission-endpoints-exactly-when-neither-readonly-nor-mirror] (has(result, tp.res + "/ct/v1/add-chain") <==> !ro) && (has(result, tp.res + "/ct/v1/add-pre-chain") <==> !ro)
+//@ ensures [read-endpoints-always-served] has(result, tp.res + "/ct/v1/get-sth") && has(result, tp.res + "/ct/v1/get-sth-consistency") && has(result, tp.res + "/ct/v1/get-proof-by-hash") && has(result, tp.res + "/ct/v1/get-entries") && has(result, tp.res + "/ct/v1/get-roots") && has(result, tp.res + "/ct/v1/get-entry-and-proof")
+//@ ensures [submission-endpoints-are-post-on-this-log] !ro ==> result[tp.res + "/ct/v1/add-chain"].Method == "POST" && result[tp.res + "/ct/v1/add-chain"].Info == li && result[tp.res + "/ct/v1/add-chain"].Name == AddChainName && result[tp.res + "/ct/v1/add-pre-chain"].Method == "POST" && result[tp.res + "/ct/v1/add-pre-chain"].Info == li && result[tp.res + "/ct/v1/add-pre-chain"].Name == AddPreChainName
+//@ ensures [read-endpoints-are-get-on-this-log] result[tp.res + "/ct/v1/get-sth"].Method == "GET" && result[tp.res + "/ct/v1/get-sth"].Info == li && result[tp.res + "/ct/v1/get-sth"].Name == GetSTHName && result[tp.res + "/ct/v1/get-entries"].Method == "GET" && result[tp.res + "/ct/v1/get-entries"].Info == li && result[tp.res + "/ct/v1/get-entries"].Name == GetEntriesName && result[tp.res + "/ct/v1/get-roots"].Method == "GET" && result[tp.res + "/ct/v1/get-roots"].Name == GetRootsName && result[tp.res + "/ct/v1/get-sth-consistency"].Method == "GET" && result[tp.res + "/ct/v1/get-sth-consistency"].Name == GetSTHConsistencyName && result[tp.res + "/ct/v1/get-proof-by-hash"].Method == "GET" && result[tp.res + "/ct/v1/get-proof-by-hash"].Name == GetProofByHashName && result[tp.res + "/ct/v1/get-entry-and-proof"].Method == "GET" && result[tp.res + "/ct/v1/get-entry-and-proof"].Name == GetEntryAndProofName
+
+//@ func newLogInfo
+//@ props C15
+//@ modifies nothing
+//@ frame-trusted writes only the logInfo it allocates and process-wide metrics
+//@ requires instanceOpts.Validated != nil && instanceOpts.Validated.Config != nil
+//@ fresh result
+//@ let V = instanceOpts.Validated
+//@ ensures [a-frozen-log-gets-the-getter-that-only-serves-its-frozen-sth] V.FrozenSTH != nil ==> typeof(result.sthGetter) == *FrozenSTHGetter && as(result.sthGetter, *FrozenSTHGetter).sth == V.FrozenSTH
+//@ ensures [a-mirror-serves-through-the-bounded-mirror-getter] V.FrozenSTH == nil && V.Config.IsMirror ==> typeof(result.sthGetter) == *MirrorSTHGetter && as(result.sthGetter, *MirrorSTHGetter).li == result && as(result.sthGetter, *MirrorSTHGetter).st != nil && (instanceOpts.STHStorage != nil ==> as(result.sthGetter, *MirrorSTHGetter).st == instanceOpts.STHStorage)
+//@ ensures [every-other-log-signs-its-backend-root] V.FrozenSTH == nil && !V.Config.IsMirror ==> typeof(result.sthGetter) == *LogSTHGetter && as(result.sthGetter, *LogSTHGetter).li == result
+//@ ensures [instance-carries-exactly-its-options] result != nil && result.instanceOpts == instanceOpts && result.logID == V.Config.LogId && result.signer == signer && result.rpcClient == instanceOpts.Client && result.validationOpts == validationOpts && result.issuanceChainService == issuanceChainService && result.TimeSource == timeSource && result.RequestLog == instanceOpts.RequestLog
+
+//@ func setUpLogInfo
+//@ props C15 C18 C02
+//@ arith int
+//@ modifies nothing
+//@ loop-frames
+//@ site keys.NewSigner#1 as ns
+//@ site Equal#1 as eqe
+//@ site Equal#2 as eqd
+//@ site Equal#3 as eqr
+//@ site parseOIDs#1 as po
+//@ site storage.NewIssuanceChainStorage#1 as ics
+//@ site newLogInfo#1 as n1
+//@ site newLogInfo#2 as n2
+//@ requires opts.Validated != nil && opts.Validated.Config != nil && ctx != nil
+//@ let V = opts.Validated
+//@ let cfg = opts.Validated.Config
+//@ ensures [instance-xor-error] (result0 != nil) != (result1 != nil)
+//@ ensures [a-log-that-accepts-submissions-needs-trusted-roots] !cfg.IsMirror && len(cfg.RootsPemFile) == 0 ==> result1 != nil
+//@ ensures [private-key-must-load] ns.called && ns.res1 != nil ==> result1 != nil
+//@ ensures [configured-public-key-must-match-the-private-key] result1 == nil && !cfg.IsMirror && V.PubKey != nil ==> (typeof(V.PubKey) == *ecdsa.PublicKey && eqe.called && eqe.res) || (typeof(V.PubKey) == ed25519.PublicKey && eqd.called && eqd.res) || (typeof(V.PubKey) == *rsa.PublicKey && eqr.called && eqr.res)
+//@ ensures [instance-is-built-by-newloginfo] result1 == nil ==> (n1.called && result0 == n1.res) || (n2.called && result0 == n2.res)
+//@ at n1 assert [options-and-signer-passed-on] n1.instanceOpts == opts && (cfg.IsMirror ==> n1.signer == nil) && (!cfg.IsMirror ==> n1.signer == ns.res0)
+//@ at n1 assert [chain-validation-is-wired-from-the-validated-config] n1.validationOpts.rejectExpired == cfg.RejectExpired && n1.validationOpts.rejectUnexpired == cfg.RejectUnexpired && n1.validationOpts.notAfterStart == V.NotAfterStart && n1.validationOpts.notAfterLimit == V.NotAfterLimit && n1.validationOpts.acceptOnlyCA == cfg.AcceptOnlyCa && n1.validationOpts.extKeyUsages == V.KeyUsages && n1.validationOpts.rejectExtIds == po.res0 && n1.validationOpts.trustedRoots != nil
+//@ at n2 assert [options-and-signer-passed-on] n2.instanceOpts == opts && (cfg.IsMirror ==> n2.signer == nil) && (!cfg.IsMirror ==> n2.signer == ns.res0)
+//@ at n2 assert [chain-validation-is-wired-from-the-validated-config] n2.validationOpts.rejectExpired == cfg.RejectExpired && n2.validationOpts.rejectUnexpired == cfg.RejectUnexpired && n2.validationOpts.notAfterStart == V.NotAfterStart && n2.validationOpts.notAfterLimit == V.NotAfterLimit && n2.validationOpts.acceptOnlyCA == cfg.AcceptOnlyCa && n2.validationOpts.extKeyUsages == V.KeyUsages && n2.validationOpts.rejectExtIds == po.res0 && n2.validationOpts.trustedRoots != nil
+//@ at ns assert [signer-from-the-validated-private-key] ns.keyProto == V.PrivKey
+//@ at ics assert [chain-storage-as-configured] ics.backend == V.ExtraDataIssuanceChainStorageBackend && ics.dbConn == V.CTFEStorageConnectionString
+
+//@ func parseOIDs
+//@ props C15 C02
+//@ arith int
+//@ modifies nothing
+//@ site strconv.Atoi#1 as at
+//@ loop 1 invariant len(ret) == rangeindex + 1
+//@ ensures [one-oid-per-string-or-an-error] result1 == nil ==> len(result0) == len(oids)
+//@ ensures [non-numeric-arc-is-an-error] at.called && at.res1 != nil ==> result1 != nil
+
+//@ func newIndirectIssuanceChainService
+//@ props C15 C14
+//@ pure
+//@ requires s != nil && c != nil
+//@ fresh result
+//@ ensures [service-holds-the-given-storage-and-cache] result != nil && result.storage == s && result.cache == c
